@@ -1,21 +1,40 @@
 import QM.Extract
+/-! Model of `quote_value` / `quote_words` (quoted.rs, after the D1 repair), driven by the tables that
+    tools/extract_tables.py regenerates from the source: the character classes and characters of
+    `char_needs_escaping`, its threshold, the `match` arms of `quote_value` and its default format. -/
 namespace P
 
+def isAsciiControl (c : Char) : Bool := c.toNat < 0x20 || c.toNat == 0x7f
+def isAsciiWhitespace (c : Char) : Bool := c == ' ' || c == '\t' || c == '\n' || c == '\x0c' || c == '\r'
+
+def clsControl : Str := ['i','s','_','a','s','c','i','i','_','c','o','n','t','r','o','l']
+def clsWhitespace : Str := ['i','s','_','a','s','c','i','i','_','w','h','i','t','e','s','p','a','c','e']
+/-- the `c.is_ascii_*()` predicates named in `char_needs_escaping`; an unknown name holds for nothing
+    (the correspondence check then disagrees) -/
+def classHolds (cls : Str) (c : Char) : Bool :=
+  if cls == clsControl then isAsciiControl c
+  else if cls == clsWhitespace then isAsciiWhitespace c
+  else false
+
+/-- char_needs_escaping -/
 def needsEsc (c : Char) : Bool :=
-  c.toNat < 0x20 || c.toNat == 0x7f || c == ' ' || c == '"' || c == '\'' || c == '\\'
+  !(decide (c.toNat > Gen.needsEscapingThreshold)) &&
+    (Gen.needsEscapingClasses.any (fun cls => classHolds cls c) || Gen.needsEscapingChars.contains c)
 
 def hexDigit (n : Nat) : Char := if n < 10 then Char.ofNat (48 + n) else Char.ofNat (87 + n)
 
-/-- extracted from the match arms of quote_value -/
-def escTable : List (Char × Char) :=
-  [('\x07','a'),('\x08','b'),('\n','n'),('\r','r'),('\t','t'),('\x0b','v'),('\x0c','f'),('\\','\\'),('"','"')]
+def fmt02x : Str := ['\\','x','{',':','0','2','x','}']
+/-- the `_ =>` arm of quote_value: `format!("\\x{:02x}", c as isize)`; a format the model does not
+    know is copied literally (the correspondence check then disagrees) -/
+def defaultArm (c : Char) : Str :=
+  if Gen.quoteDefaultFmt == fmt02x then ['\\', 'x', hexDigit (c.toNat / 16), hexDigit (c.toNat % 16)]
+  else Gen.quoteDefaultFmt
 
 def escChar (c : Char) : Str :=
   if !needsEsc c then [c]
-  else if c == ' ' || c == '\'' then [c]
-  else match escTable.lookup c with
-    | some e => ['\\', e]
-    | none => ['\\', 'x', hexDigit (c.toNat / 16), hexDigit (c.toNat % 16)]
+  else match Gen.quoteArms.lookup c with
+    | some e => e
+    | none => defaultArm c
 
 def quoteValue (s : Str) : Str := s.flatMap escChar
 
@@ -41,7 +60,5 @@ def collect (next : Str → Res) : Nat → Str → Option (List Str)
     | .word w rest => (collect next fuel rest).map (w :: ·)
 
 def splitAll (f : Flags) (s : Str) : Option (List Str) := collect (Spec.extractFirst f) (s.length + 1) s
-
-#eval (splitAll execFlags (quoteWords ["a b".toList, "".toList, "x\"y\x01\x7f'\\".toList, "é;".toList])).map (·.map String.ofList)
 
 end P
